@@ -693,6 +693,34 @@ func reflectStubs() map[string]StubFn {
 		}
 	})
 	rt("Len", func(c *CallCtx, t types.Type) { c.Return(BVC(64, uint64(t.Underlying().(*types.Array).Len()))) })
+	rtArg := func(v Value) types.Type {
+		switch a := v.(type) {
+		case Iface:
+			return a.V.(RType).T
+		case RType:
+			return a.T
+		}
+		unsupported("reflect.Type argument %T", v)
+		return nil
+	}
+	// reflect's ConvertibleTo: Go's convertibility, except that reflect refuses complex <-> real conversions
+	rt("ConvertibleTo", func(c *CallCtx, t types.Type) {
+		u := rtArg(c.args[1])
+		ok := types.ConvertibleTo(t, u)
+		isC := func(x types.Type) bool {
+			b, isB := x.Underlying().(*types.Basic)
+			return isB && b.Info()&types.IsComplex != 0
+		}
+		isN := func(x types.Type) bool {
+			b, isB := x.Underlying().(*types.Basic)
+			return isB && b.Info()&types.IsNumeric != 0
+		}
+		if isN(t) && isN(u) && isC(t) != isC(u) {
+			ok = false
+		}
+		c.Return(BoolC(ok))
+	})
+	rt("AssignableTo", func(c *CallCtx, t types.Type) { c.Return(BoolC(types.AssignableTo(t, rtArg(c.args[1])))) })
 	return m
 }
 
